@@ -156,7 +156,7 @@ func (s *APIServer) getGlobalRichList(ctx context.Context, data json.RawMessage)
 
 	height := s.Node.GetCurrentSync()
 	rates, realHeight, err := s.Node.Pegnet.SelectMostRecentRatesBeforeHeight(nil, s.Node.Pegnet.DB, height+1)
-	averages := s.Node.GetPegNetRateAverages(ctx, realHeight).(map[fat2.PTicker]uint64)
+	averages := s.Node.GetPegNetRateAveragesForAPI(ctx, realHeight).(map[fat2.PTicker]uint64)
 	if err != nil {
 		return err
 	}
@@ -233,7 +233,7 @@ func (s *APIServer) getRichList(ctx context.Context, data json.RawMessage) inter
 
 	height := s.Node.GetCurrentSync()
 	rates, rateHeight, err := s.Node.Pegnet.SelectMostRecentRatesBeforeHeight(nil, s.Node.Pegnet.DB, height+1)
-	averages := s.Node.GetPegNetRateAverages(ctx, rateHeight).(map[fat2.PTicker]uint64)
+	averages := s.Node.GetPegNetRateAveragesForAPI(ctx, rateHeight).(map[fat2.PTicker]uint64)
 	if err != nil {
 		return err
 	}
